@@ -460,7 +460,8 @@ def analyse(repo):
         if cmp_ is None:
             cmp_ = []
         out.append({"name": c, "file": os.path.relpath(path, repo), "bases": rec["bases"],
-                    "members": [{"name": n, "type": t, "kind": coarse(t)} for t, n in rec["fields"]],
+                    # anonymous types print with an absolute source path: keep it relative to the repo
+                    "members": [{"name": n, "type": t.replace(repo.rstrip("/") + "/", ""), "kind": coarse(t)} for t, n in rec["fields"]],
                     "serialized": ser, "compared": cmp_, "has_eq": has_eq})
     for r in REQUIRED:
         if not any(o["name"] == r for o in out):
